@@ -2235,6 +2235,8 @@ class PEval:
         if on_os:
             # OsStr / OsString are text
             if fname in ("new", "from", "to_os_string", "to_owned", "into_os_string", "as_os_str", "as_ref", "to_string_lossy", "into_string", "as_encoded_bytes", "into"):
+                if fname == "as_encoded_bytes":
+                    return list(str(a0).encode("utf-8"))
                 return str(a0) if fname != "into_string" else ok(str(a0))
             if fname == "to_str":
                 return some(str(a0))
